@@ -1,6 +1,6 @@
 (* Proofs about Model/Mmap.v over Spec/AddrSpace.v. *)
 From Coq Require Import NArith List Lia ZArith Bool.
-Require Import SDS.Model.Mach SDS.gen.Consts SDS.gen.Funs SDS.Spec.AddrSpace SDS.Model.MmapCfg SDS.Model.Mmap.
+Require Import SDS.Model.Mach SDS.gen.Consts SDS.gen.Funs SDS.Spec.AddrSpace SDS.gen.MmapCfg SDS.Model.Mmap.
 Import ListNotations.
 Open Scope N_scope.
 Require Import ZifyBool ZifyN ZifyNat.
